@@ -28,3 +28,11 @@ Print Assumptions C17_filler_frame.
 Theorem C17_filled_members_hold_schema_values : stmt_do_fills_values.
 Proof. exact do_fills_values. Qed.
 Print Assumptions C17_filled_members_hold_schema_values.
+
+From Sbepp Require Import Compile CompileSpec CompileProofs.
+
+(* for every header composite the compiled filler assignments stay inside the
+   header and target unsigned members *)
+Theorem C17_compiled_fills_inside_header : stmt_compile_fills_inside.
+Proof. exact compile_fills_inside. Qed.
+Print Assumptions C17_compiled_fills_inside_header.
